@@ -3,7 +3,7 @@
 PROP = {
     "id": "C02",
     "level": "exploration",
-    "technique": "property-based testing (rapid) of the whole real pipeline incl. the real WARC-writing HTTP client (synchronous WARC mode) against in-process origin servers on 127.0.0.N; the finish-receiving goroutine parses the job's WARC files with an independent reader and compares them with the origin log",
+    "technique": "property-based testing (rapid) of the whole real pipeline incl. the real WARC-writing HTTP client (synchronous WARC mode) against in-process origin servers on 127.0.0.N; the finish-receiving goroutine parses the job's WARC files with an independent reader and compares them with the origin log; the same property once more per process under the Go race detector (shared state between the fetch goroutines and the WARC recorder)",
     "level_text": ("All five real stages are wired as in controler.startPipeline; the harness is the source (owns the finish and produce channels). Origin servers answer from a generated table with exact control "
                    "of the bytes on the wire (hijacked connections): body size classes 0/1/2047/2048/2049, whole message = dedupe threshold -1/0/+1, 64 KiB, 1 MiB and 2 MiB +-1, random; text/binary/empty/HTML; "
                    "honest and lying content types; identity|gzip; Content-Length|chunked|connection-close framing; statuses 200/204/301/302/403/403+cf-mitigated/404/408/429/500/503; fail-then-ok; truncated "
@@ -18,6 +18,11 @@ PROP = {
     "units": [
         {"name": "c02", "pkg": "./internal/pkg/verifnet", "run": "^TestVerif_C02_", "kind": "rapid", "toolchain": "go124",
          "facets": ["C02/finish", "C02/rejected"], "checks": (22, 110), "shards": (2, 8), "shrinktime": (25, 90), "timeout": (600, 2400), "verbose": True},
+        # one lifecycle per process under the race detector (reports whose accessing function is one of the harness's own
+        # reset hooks are ignored: they run while goroutines of the stopped pipeline wind down): the discard policy, the feedback channels and the per-item bookkeeping are
+        # shared between the fetch goroutines of a seed and the WARC recorder's goroutines (a data race report is a violation)
+        {"name": "c02race", "pkg": "./internal/pkg/verifnet", "run": "^TestVerif_C02_Finish$", "kind": "rapid", "toolchain": "go124",
+         "facets": ["C02/finish"], "race": (True, True), "race_ignore": r"\.Verif[A-Z]\w*\(|/verifnet\.|/veriflib\.", "checks": (1, 1), "shards": (6, 16), "shrinktime": (5, 30), "timeout": (900, 2400), "verbose": True},
         {"name": "c02kf1", "pkg": "./internal/pkg/verifnet", "run": "^TestVerifKF_C02_FailedResponseNotAwaited$", "kind": "kf", "toolchain": "go124",
          "finding": "C02-failed-response-not-awaited", "facets": [], "checks": (1, 1), "shards": (1, 1), "verbose": True},
     ],
